@@ -1,3 +1,4 @@
+import Fzf.Lemmas.Window
 import Fzf.Lemmas.Terminal
 import Fzf.Generated.GoFuncs
 /-
@@ -172,6 +173,18 @@ theorem C09_cursor_valid (op : Opts) (s : TS) :
     simp only [hb.1, hb.2, and_self, if_true]
     rw [List.getElem?_eq_getElem (by omega)]
     rfl
+
+/-- **The cursor is always on screen.** After `constrain` (run at the end of every action list and
+    at once by first / last / pos), with a list window of at least one row and a non-empty result
+    list: the current result is inside the window (`offset ≤ cy < offset + rows`) — whatever the
+    cursor and the scroll offset were before, for every window height, --scroll-off and list
+    length — and the window does not scroll past the end of the list unless the list is shorter
+    than the window. (While the input section is hidden the list has its rows too: `rowsOf`.) -/
+theorem C09_cursor_on_screen (op : Opts) (s : TS) (hrows : 0 < rowsOf op s) (hne : s.results ≠ []) :
+    let s' := constrain op s
+    0 ≤ s'.offset ∧ s'.offset ≤ s'.cy ∧ s'.cy < s'.offset + (rowsOf op s : Int) ∧
+    s'.offset ≤ max ((s.results.length : Int) - (rowsOf op s : Int)) 0 :=
+  constrain_window op s hrows hne
 
 /-- `toggle` is an involution on the selection as long as the limit does not interfere. -/
 theorem C09_toggle_involution (op : Opts) (s : TS) (i : Nat) (hc : currentItem s = some i)
